@@ -548,8 +548,16 @@ def run_entries(ctx, rid, entries, text, floor_bodies=3):
         cg = callgraph_of(F)
         sites, graph = enumerate_sites(F, roots)
         groups = {}
+        site_file = {}
         for b, bi, kind, detail, why in sites:
             top = b.path.split('::{')[0]
+            # a site that came with a spliced helper which did not exist when the table was written belongs to that helper
+            # (new code), not to the tabled function it was spliced into
+            frm = (b.blocks[bi].get('from') or '').split('::{')[0]
+            if frm and frm not in baseline_functions():
+                top = frm
+                if F.body(frm) is not None:
+                    site_file[top] = F.body(frm).file
             if top in PRECOND:
                 continue
             if why:
@@ -590,7 +598,7 @@ def run_entries(ctx, rid, entries, text, floor_bodies=3):
                 slack[(f_, kind)] = slack.get((f_, kind), 0) + max(0, mx - have)
         for (top, kind), lst in sorted(groups.items()):
             mx, reason = EXC.get((top, kind), (0, None))
-            f_ = lst[0][0].file
+            f_ = site_file.get(top, lst[0][0].file)
             if len(lst) <= mx:
                 ctx.ok(rid, '%s:%s' % (top, kind), '%d site(s) <= %d tabled: %s' % (len(lst), mx, reason), term_loc(lst[0][0], lst[0][1]))
             elif top not in tabled_fns and top not in baseline_functions() and len(lst) <= slack.get((f_, kind), 0):
